@@ -182,6 +182,14 @@ class Ctx(Acc):
                 print(f'   {msg[:400]}')
         if n_new > MAX_REPLAYS:
             print(f'   ... and {n_new - MAX_REPLAYS} further distinct violations of {self.pid} (not written)')
+        if os.environ.get('VERIF_DEBUG') and new:
+            keys = getattr(self.mod, 'GROUP', ('kind',))
+            groups = collections.OrderedDict()
+            for case, msg in new:
+                groups.setdefault(tuple(str(case.get(k)) for k in keys), []).append(msg)
+            print('--- grouped new violations by', keys)
+            for g, msgs in sorted(groups.items(), key=lambda x: -len(x[1])):
+                print(f'{len(msgs):6d} {g}  e.g. {msgs[0][:300]}')
         raw = self.counts.pop('_violations_raw', 0)
         for e in self.harness_errors[:5]:
             print('HARNESS-ERROR', e, file=sys.stderr)
